@@ -1,7 +1,7 @@
 (* C09 — correspondence / property evaluation on what was observed on the
    implementation (router.NewRouter() + httptest).  Executable only. *)
 From Coq Require Import List String Ascii Bool ZArith.
-From GZ Require Export C09.Model C09.Spec C09.ServerModel.
+From GZ Require Export C09.Model C09.Spec C09.ServerModel C09.Target.
 Import ListNotations.
 Open Scope string_scope.
 
@@ -409,15 +409,55 @@ Definition s_model_obs (s : scase) :=
                  | _ => []
                  end) (sreqs s)).
 
-(* ================================================================ both kinds *)
-Inductive case := CRouter (c : rcase) | CServer (s : scase).
+(* ================================================================ request targets
+   Requests sent as raw request lines (parsed by net/http like a real server does).  The model
+   derives URL.Path / URL.RawPath from the TARGET itself (Target.parse_target); [agrees] compares
+   them with net/url's, [prop_ok] judges the response against the route table and the path the
+   MODEL decoded — it does not rely on what Go reports as URL.Path. *)
+Record treq := mkTReq
+  { tqm : string; tqt : string;           (* method, request target as sent *)
+    tqgo : option (string * string);      (* Go's (URL.Path, URL.RawPath); None = net/http refused the request line *)
+    tqres : response }.
+
+Record tcase := mkTCase { tnf : bool; tna : bool; tregs : list reg; tregobs : list reg_result; treqs : list treq }.
+
+Definition t_agrees (c : tcase) : bool :=
+  let r := build (new_router (tnf c) (tna c)) (tregs c) in
+  list_eqb reg_result_eqb (build_results (new_router (tnf c) (tna c)) (tregs c)) (tregobs c)
+  && forallb (fun q =>
+       match parse_target (tqt q), tqgo q with
+       | Some (p, raw), Some (gp, graw) =>
+         (p =? gp) && (raw =? graw) && existsb (response_eqb (tqres q)) (serve_allowed r (tqm q) p)
+       | None, None => true
+       | _, _ => false
+       end) (treqs c).
+
+Definition t_req_ok (c : tcase) (q : treq) : bool :=
+  match parse_target (tqt q), tqgo q with
+  | Some (p, _), Some _ => response_ok (table_of (tregs c)) (tnf c) (tna c) (mkReq (tqm q) p "" (tqres q) [] 0)
+  | _, _ => true       (* whether a request line is refused is net/http's business: compared by [agrees] *)
+  end.
+
+Definition t_prop_ok (c : tcase) : bool :=
+  if one_var_name_per_position (table_of (tregs c)) then forallb (t_req_ok c) (treqs c) else true.
+
+Definition t_model_obs (c : tcase) :=
+  map (fun q => (parse_target (tqt q),
+                 match parse_target (tqt q) with
+                 | Some (p, _) => serve_allowed (build (new_router (tnf c) (tna c)) (tregs c)) (tqm q) p
+                 | None => []
+                 end)) (treqs c).
+
+(* ================================================================ all kinds *)
+Inductive case := CRouter (c : rcase) | CServer (s : scase) | CTarget (t : tcase).
 
 Definition agrees (c : case) : bool :=
-  match c with CRouter c => r_agrees c | CServer s => s_agrees s end.
+  match c with CRouter c => r_agrees c | CServer s => s_agrees s | CTarget t => t_agrees t end.
 Definition prop_ok (c : case) : bool :=
-  match c with CRouter c => r_prop_ok c | CServer s => s_prop_ok s end.
+  match c with CRouter c => r_prop_ok c | CServer s => s_prop_ok s | CTarget t => t_prop_ok t end.
 Definition model_obs (c : case) :=
   match c with
-  | CRouter c => (Some (r_model_obs c), None)
-  | CServer s => (None, Some (s_model_obs s))
+  | CRouter c => (Some (r_model_obs c), None, None)
+  | CServer s => (None, Some (s_model_obs s), None)
+  | CTarget t => (None, None, Some (t_model_obs t))
   end.
